@@ -167,7 +167,7 @@ Theorem rejected_after_decl' (Inv : st -> Prop) (decl : stmt) (e : expr) :
       (pre ++ decl :: mid ++ SDefinition dname dvar dkind dty (plug_e e (SStatementExpression e sp0) C) dsp :: post)) <> Ok tt.
 Proof.
   intros IE Hd He pre mid post dname dvar dkind dty C dsp sp0 fuel vars.
-  apply typecheck_notok. intros s W. unfold solve. apply bind_notok_l.
+  apply typecheck_notok_main. intros s W.
   set (kinds := kinds_of vars 1 (PositiveMap.empty varkind)).
   pose proof (gfix_pres fuel) as PG. pose proof (afix_pres kinds (gfix fuel) PG fuel) as PA.
   apply (iterM_notok_after _ Inv); try assumption.
@@ -195,7 +195,7 @@ Theorem rejected_after_decl_es (Inv : st -> Prop) (decl : stmt) (e : expr) (stm 
       (pre ++ decl :: mid ++ SDefinition dname dvar dkind dty (plug_e e stm C) dsp :: post)) <> Ok tt.
 Proof.
   intros IE Hd He Hs pre mid post dname dvar dkind dty C dsp fuel vars.
-  apply typecheck_notok. intros s W. unfold solve. apply bind_notok_l.
+  apply typecheck_notok_main. intros s W.
   set (kinds := kinds_of vars 1 (PositiveMap.empty varkind)).
   pose proof (gfix_pres fuel) as PG. pose proof (afix_pres kinds (gfix fuel) PG fuel) as PA.
   apply (iterM_notok_after _ Inv); try assumption.
